@@ -210,16 +210,16 @@ def directReferrers (w : World) (x : Id) : List Id :=
   (w.areas.filter fun a => a.polys.any fun ids => ids.contains x).map (·.id) ++
   (w.relations.filter fun r => r.members.any fun m => m.1 = x).map (·.id)
 
-/-- `FeatureReferencesByID.findReferences` (with the visited check of the C15 fix): everything reachable
-through the referrers index. `fuel` bounds the number of rounds; `closure` gives it one more than there are
-features. -/
-def expand (w : World) : Nat → List Id → List Id → List Id
+/-- Breadth-first closure of a "direct referrers" function: `FeatureReferencesByID.findReferences` (with the
+visited check of the C15 fix) for the in-memory world, `findReferrers` for the compact world. `fuel` bounds the
+number of rounds; the worlds give it one more than there are features. -/
+def expand (d : Id → List Id) : Nat → List Id → List Id → List Id
   | 0, seen, _ => seen
   | fuel + 1, seen, frontier =>
-    let new := dedup ((frontier.flatMap (directReferrers w)).filter fun y => !seen.contains y)
-    if new.isEmpty then seen else expand w fuel (seen ++ new) new
+    let new := dedup ((frontier.flatMap d).filter fun y => !seen.contains y)
+    if new.isEmpty then seen else expand d fuel (seen ++ new) new
 
-def closure (w : World) (x : Id) : List Id := expand w ((allIds w).length + 1) [] [x]
+def closure (w : World) (x : Id) : List Id := expand (directReferrers w) ((allIds w).length + 1) [] [x]
 
 /-- basic `FindReferences(id, typed...)` (`ts = []` = untyped) -/
 def refsB (w : World) (x : Id) (ts : List FT) : List Id :=
@@ -291,10 +291,28 @@ def pathExists (w : World) (id : Id) : Bool := w.paths.any (·.id = id)
 /-- `findPathsByPoint` (each path once) -/
 def findPathsByPoint (w : World) (x : Id) : List Id := dedup (pointPaths w x)
 
-/-- direct relations recorded on the feature's own record (nothing for an id without a record) -/
-def relsC (w : World) (x : Id) : List Id :=
-  if !hasFeature w x then [] else
+/-- the id has a record in the index: its feature is there, or it is a point (a point that is missing but is a
+member of a relation, or on a path, still has a references-only record) -/
+def hasRecord (w : World) (x : Id) : Bool := hasFeature w x || x.t = .point
+
+/-- `findDirectRelations`: the relations recorded on the feature's own record (nothing for an id without a record) -/
+def relsDirectC (w : World) (x : Id) : List Id :=
+  if !hasRecord w x then [] else
   dedup ((w.relations.filter fun r => r.members.any fun m => m.1 = x).map (·.id))
+
+/-- `fillAreasFromPath`: the areas listed on the path's record (those of every source area over it) that exist -/
+def areasOfPathC (w : World) (z : Id) : List Id :=
+  if !pathExists w z then [] else
+  (dedup ((w.srcAreas.filter fun a => a.polys.any fun ids => ids.contains z).map (·.id))).filter fun a => w.areas.any (·.id = a)
+
+/-- one step of `findReferrers`: paths through a point, areas of a path, relations of anything -/
+def directC (w : World) (z : Id) : List Id :=
+  (if z.t = .point then (findPathsByPoint w z).filter (pathExists w) else []) ++
+  (if z.t = .path then areasOfPathC w z else []) ++
+  relsDirectC w z
+
+/-- `findReferrers` -/
+def closureC (w : World) (x : Id) : List Id := expand (directC w) ((allIds w).length + 1) [] [x]
 
 /-- `FindAreasByPoint` -/
 def areasC (w : World) (x : Id) : List Id :=
@@ -305,9 +323,10 @@ def areasC (w : World) (x : Id) : List Id :=
 
 /-- compact `FindReferences(id, typed...)` -/
 def refsC (w : World) (x : Id) (ts : List FT) : List Id :=
-  (if x.t = .point && (ts.isEmpty || ts.contains .path) then (findPathsByPoint w x).filter (pathExists w) else []) ++
-  (if ts.isEmpty || ts.contains .relation then relsC w x else []) ++
-  (if x.t = .point && (ts.isEmpty || ts.contains .area) then areasC w x else [])
+  (closureC w x).filter fun y => ts.isEmpty || ts.contains y.t
+
+/-- compact `FindRelationsByFeature` -/
+def relsC (w : World) (x : Id) : List Id := refsC w x [.relation]
 
 /-- `countPaths`: distinct recorded paths that are present -/
 def countPaths (w : World) (p : Id) : Nat := ((dedup (pointPaths w p)).filter (pathExists w)).length
@@ -338,13 +357,5 @@ def traverseC (w : World) (x : Id) : List Seg :=
     match findPath w.paths pid with
     | some q => segmentsC w x q
     | none => []
-
-/-! ## the known disagreement -/
-
-/-- Hypothesis of the `_partial` theorems about `FindReferences` / `FindRelationsByFeature`, and (negated) the
-executable class of the known finding `compact-references-partial`: everything the in-memory world returns
-(referrers through any number of reference steps) is reached by the compact world's lookup (the direct
-relations recorded on an existing feature, plus the paths and areas of a point). -/
-def oneLevel (w : World) (x : Id) (ts : List FT) : Bool := (refsB w x ts).all fun y => (refsC w x ts).contains y
 
 end B6.Model.WorldRead
